@@ -460,7 +460,9 @@ def hash_agreement_sites(db, rep):
     if start is None:
         start = 5381
     bad = []
-    for key in ([106, 111, 115, 0xE9], [0xFC], [65, 0x80, 0xFF, 97], [97, 98, 99], []):
+    hr_empty = None
+    refbad = []
+    for key in ([106, 111, 115, 0xE9], [0xFC], [65, 0x80, 0xFF, 97], [97, 98, 99], [], [0], [1], [65], [127], [128], [255], [255, 255]):
         H = Conc('cdb_hash')
         e = Engine(db, progr, H)
         fid = e.frame_id(rd)
@@ -485,7 +487,14 @@ def hash_agreement_sites(db, rep):
             hw = one(H2.ends[0][1])
         if hr is None or hw is None or (hr & 0xffffffff) != (hw & 0xffffffff):
             bad.append((bytes(key), hex(hr & 0xffffffff) if hr is not None else None, hex(hw & 0xffffffff) if hw is not None else None))
-    return {'reader-and-writer-hash-agree(8-bit-keys-too)': (not bad, 'cdb_hash.c/cdbmake_hash.c', '(key, reader hash, writer hash): %s; an entry whose key hashes differently on the two sides is never found: the address silently falls through to a wildcard, the catch-all or qmail-getpw' % bad[:3], [])}
+        if not key:
+            hr_empty = hr
+        if hr is None or (hr & 0xffffffff) != _cdbhash(key):
+            refbad.append((bytes(key), hex(hr & 0xffffffff) if hr is not None else None, hex(_cdbhash(key))))
+    out_ = {'reader-and-writer-hash-agree(8-bit-keys-too)': (not bad, 'cdb_hash.c/cdbmake_hash.c', '(key, reader hash, writer hash): %s; an entry whose key hashes differently on the two sides is never found: the address silently falls through to a wildcard, the catch-all or qmail-getpw' % bad[:3], [])}
+    out_['hash-step-agrees'] = (not refbad, 'cdb_hash.c/cdbmake_hash.c', 'the reader\'s hash against the cdb hash function h = (h * 33) ^ byte from 5381 (key, reader, reference): %s' % refbad[:3], [])
+    out_['hash-start-agrees'] = (hr_empty is not None and (hr_empty & 0xffffffff) == start == 5381, 'cdb_hash.c/cdbmake.h', 'reader hash of the empty key %s, writer start value %s, cdb start value 5381' % (hr_empty, start), [])
+    return out_
 
 
 
@@ -1037,19 +1046,7 @@ def run(ctx):
                     return 'BYTE'
                 steps.append((x.op, norm(x.args[1].sx())))
         return steps
-    ch = db.fn('cdb_hash.c', 'cdb_hash')
-    cm = db.fn('cdbmake_hash.c', 'cdbmake_hashadd')
-    s1, s2 = hash_steps(ch, 'L:h#0'), hash_steps(cm, 'P:h')
-    r4.check(bool(s1) and s1 == s2, 'hash-step-agrees', 'cdb_hash.c/cdbmake_hash.c', 'reader step %s, writer step %s' % (s1, s2))
-    start_r = [x.args[1].const for x in ch.all_x() if x.k == 'asg' and x.op == '=' and x.args[0].var == 'L:h#0']
-    start_w = db.unit('cdbmss.c').macro_int('CDBMAKE_HASHSTART')
-    if start_w is None:
-        m = db.unit('cdbmss.c').macros.get('CDBMAKE_HASHSTART')
-        try:
-            start_w = int(m['body'].replace('(', ' ').replace(')', ' ').split()[-1].rstrip('UL'), 0) if m else None
-        except ValueError:
-            start_w = None
-    r4.check(start_r == [5381] and start_w == 5381, 'hash-start-agrees', 'cdb_hash.c/cdbmake.h', 'reader starts at %s, writer at %s' % (start_r, start_w))
+    # hash step and start value: decided by value in hash_agreement_sites (reader against writer and against the cdb hash function)
 
     # byte order: evaluate unpack on bytes 1,2,3,4 and pack on 0x04030201 with the abstract interpreter
     class BO(QHooks):
@@ -1114,6 +1111,10 @@ def run(ctx):
     wadd = [c for c in nu.calls('cdbmss_add') if c.args[1].string == '' and c.args[2].const == 0 and 'wildchars' in c.args[3].src()]
     rget = [c for c in ng.calls('cdb_seek') if c.args[1].string == '' and c.args[2].const == 0]
     r4.check(bool(wadd) and bool(rget), 'break-list-under-the-empty-key', 'qmail-newu.c/qmail-lspawn.c', '')
+    _hs = hash_agreement_sites(db, rep)
+    for inst in ('hash-step-agrees', 'hash-start-agrees'):
+        v = _hs[inst]
+        r4.check(v[0], inst, v[1], v[2], v[3])
     r4.expect_min(10)
 
     # ---------------------------------------------------------------- 5. qmail-getpw
@@ -1128,8 +1129,9 @@ def run(ctx):
     r6 = rep.rule('C11.6-duplicate-order', 'R-SIBLING', 'records reach each hash bucket oldest first: chunk-list order (cdbmake_add), within-chunk traversal and fill direction (cdbmake_split) agree; writer and reader probe forward, so the first source line is the one found')
     for inst, v in sorted(cdb_order_sites(db, rep).items()):
         r6.check(v[0], inst, v[1], v[2], v[3])
-    for inst, v in sorted(hash_agreement_sites(db, rep).items()):
-        r6.check(v[0], inst, v[1], v[2], v[3])
+    for inst, v in sorted(_hs.items()):
+        if inst not in ('hash-step-agrees', 'hash-start-agrees'):
+            r6.check(v[0], inst, v[1], v[2], v[3])
     for inst, v in sorted(cdb_seek_sites(db, rep).items()):
         r6.check(v[0], inst, v[1], v[2], v[3])
     cs = db.fn('cdb_seek.c', 'cdb_seek')
